@@ -9,6 +9,7 @@ import (
 	"path/filepath"
 	"slices"
 	"strconv"
+	"strings"
 	"time"
 
 	"github.com/uber-go/tally"
@@ -56,7 +57,14 @@ func rebootPersistedStore(config *Config, log *zap.SugaredLogger, stats tally.Sc
 			return nil, err
 		}
 		if !ok {
-			log.With("key", key).Warn("Could not reboot blob from disk - its parent directory is there but the blob is missing")
+			// Left behind by a crash in the middle of Create, Delete or an eviction. The leftover directory
+			// must be removed: otherwise it is skipped on every reboot but keeps blocking Create (O_EXCL on
+			// the blob file) or MarkComplete (rename onto an existing directory) of the same key forever.
+			log.With("key", key).Warn("Could not reboot blob from disk - its directory is there but the blob or its size is missing. Removing the leftover directory")
+			err = os.RemoveAll(pather.dirPath(key, complete))
+			if err != nil {
+				return nil, fmt.Errorf("remove leftover dir of unrebootable blob: %w", err)
+			}
 			continue
 		}
 		if b.complete && b.evictable {
@@ -147,6 +155,10 @@ func rebootBlob(key string, complete bool, pather *pather) (res *rebootedBlob, o
 			return nil, false, nil
 		}
 	}
+	err = removeLeftoverTmpFiles(pather.dirPath(key, complete))
+	if err != nil {
+		return nil, false, fmt.Errorf("remove leftover tmp metadata files: %w", err)
+	}
 	mTime := fInfo.ModTime()
 	return &rebootedBlob{
 		key:       key,
@@ -172,11 +184,35 @@ func rebootIncompleteBlobSize(key string, pather *pather) (size uint64, ok bool,
 	if err != nil {
 		return 0, false, fmt.Errorf("read blob size sidecar file: %w", err)
 	}
+	if len(blobSizeData) == 0 {
+		// The crash happened after the size file was created but before the size was written to it.
+		// Same as a missing size file: we fail-open by evicting the blob.
+		return 0, false, nil
+	}
 	blobSize, err := strconv.Atoi(string(blobSizeData))
 	if err != nil {
 		return 0, false, fmt.Errorf("blob size sidecar file is in unexpected format: %w", err)
 	}
 	return uint64(blobSize), true, nil
+}
+
+// removeLeftoverTmpFiles removes the tmp files that SetMetadata leaves in the blob's dir if the
+// process crashes before renaming them. Otherwise they would be listed as metadata of the blob.
+func removeLeftoverTmpFiles(blobDir string) error {
+	entries, err := os.ReadDir(blobDir)
+	if err != nil {
+		return err
+	}
+	for _, entry := range entries {
+		if entry.IsDir() || !strings.HasSuffix(entry.Name(), _tmpFileSuffix) {
+			continue
+		}
+		err = os.Remove(filepath.Join(blobDir, entry.Name()))
+		if err != nil && !errors.Is(err, os.ErrNotExist) {
+			return err
+		}
+	}
+	return nil
 }
 
 func existsPersistedStore(rootDir string) (ok bool, err error) {
